@@ -202,10 +202,41 @@ CHECKS = {
              "bound of the recurrences), tolerance ranks of the recorded log-likelihoods (a harness subclass observing _LogLikelihood supplies "
              "the rounding bound; values computed while a logged hyperedge has rate 0 count as -inf), finite/non-negative/row-sum flags.",
         technique="TLA+ recurrence + bookkeeping models checked exhaustively by TLC; TLC trace validation of the training table / hook events; TLC validation of output contracts on logged flags"),
+    "C18": dict(
+        level="model_checking", ref="3 C18",
+        text=("RandWalk.tla defines W, K and Pi as exact rationals; TLC checks RowStochastic, KProportionalToWeight, PiIsDistribution, "
+              "PiStationary (Pi K = Pi exactly), DetailedBalance and PushKeepsMass on every connected hypergraph over 4 nodes with sizes "
+              "2..4 (1990 of 2048; thorough also 5 nodes with at most 4 hyperedges). Contagion.tla has one action Sweep reading only the old "
+              "infected set (may/must relation over rates 0/mid/1); TLC explores all hypergraphs on 3 nodes (and on 4 nodes in thorough, "
+              "2.8-7 M states), all initial sets and rate triples: monotonicity, functional deterministic regimes, horizon, returned vector. "
+              "Validation: TLC emits K and Pi for every connected hypergraph executed (all on 4 nodes in thorough, random ones up to 8 nodes); "
+              "transition_matrix, RW_stationary_state and every random_walk_density step (s_t K with the specification's K) are compared, "
+              "sampled walks are decided by TLC as K-positive steps; simplicial_contagion runs (all 3-node hypergraphs x initial sets x 8 "
+              "deterministic regimes, random larger ones and random rates/seeds, four label maps) are trace-validated: exact trajectory in "
+              "the deterministic regimes, bounds and monotonicity elsewhere, and with the hook every sweep as one Sweep step."),
+        note=TB + " Floats are compared with TLC's exact rationals at 1e-9 (1e-8 for the solved stationary vector) in numpy; numpy's global "
+                  "generator is seeded per call; intermediate rates: only bounds/monotonicity are verdict-bearing (sweep relation = MODEL-DRIFT); "
+                  "exhaustive only for the small universes.",
+        technique="TLA+ exact-rational definitions + TLC exhaustive invariants; TLC oracle mode (exact K, Pi); TLC trace validation of the contagion (hooked sweeps)"),
+    "C20": dict(
+        level="exploration", ref="3 C20",
+        text=("Centrality.tla defines the s-line graph and the bipartite graph of a hypergraph, BFS distances, shortest-path counts, "
+              "betweenness (networkx: undirected, normalised) and closeness (Wasserman-Faust) as exact rationals, the temporal averages and "
+              "the integer co-membership matrix; TLC checks OneValuePerEdge/Node, RelabellingEquivariance, path-length identities, symmetry of "
+              "the projections and AveragedIsMeanOverSnapshots on all hypergraphs over 3 nodes and over 4 nodes with at most 4 (thorough 7) "
+              "hyperedges. Validation (oracle mode): for thousands of static and temporal hypergraphs under int, sparse-int and string labels "
+              "(including labels containing E) TLC decides the key sets of the returned dictionaries and emits the rationals, compared at 1e-9 "
+              "with s_betweenness/closeness (s = 1..3), the node versions and the averaged versions; relabelling events compare values through "
+              "the permutation. Sub-hypergraph centrality is compared with log(expm(Adj)_ii) computed by scipy on the specification's Adj; "
+              "CEC/HEC (connected 3-/4-uniform, labels 0..N-1, many random starts): positivity, normalisation and eigen-equation residuals "
+              "evaluated with the specification's clique-expansion matrix and hyperedges."),
+        note=TB + " Not decided by TLA+: matrix exponential and eigen-residual arithmetic (numpy/scipy on spec-provided integer structures); "
+                  "runs printing 'did not converge' are counted, not judged; snapshot node sets accepted both ways; sampled, not exhaustive, beyond 4 nodes.",
+        technique="TLA+ exact-rational Brandes/closeness on the spec's own projections + TLC invariants; TLC oracle mode; numpy on spec structures for real-valued claims"),
 }
 
 NOT_APPLICABLE = {
-}
+}   # all twenty properties are claimed; sub-claims decided outside TLC are named in each level_note
 
 PLANNED = ("not yet built in this revision of /verif (planned: TLA+ model + TLC trace validation, "
            "see DESIGN.md section 3); no claim is made")
@@ -261,7 +292,7 @@ def main():
     print("MANIFEST.json: %d checks, %d not_applicable" % (len(checks), len(na)))
 
 
-HOOK_COMMITS = ["0508060", "9afb12b", "50585b8", "894336c"]
+HOOK_COMMITS = ["0508060", "9afb12b", "50585b8", "894336c", "b8b16da"]
 
 if __name__ == "__main__":
     main()
